@@ -7,10 +7,27 @@
    model_metric.cc and the classification evaluators function by function; the
    output of a program on an example is an oracle (property C01), [libm_atan]
    and [libm_exp] are the C library's functions. *)
-From Coq Require Import ZArith List Bool.
-From VV Require Import Base.F64 Lambda.LambdaDefs Lambda.LambdaProofs.
+From Coq Require Import ZArith List Bool Reals.
+From Flocq Require Import IEEE754.BinarySingleNaN.
+From VV Require Import Base.F64 Lambda.LambdaDefs Lambda.LambdaProofs Lambda.LambdaHeap Lambda.LambdaFloat.
 Import ListNotations.
 Local Open Scope Z_scope.
+
+(* ------------------------------------------------------- object identities *)
+(* For EVERY history of constructions, copies, moves, assignments (also
+   self-assignment), destructions and std::vector relocations / erasures that
+   is valid for values (it only names live models), the object model of
+   detail/lambda_f.h runs without any interpreter designating a destroyed
+   object, each model then runs exactly the program(s) it stores according to
+   value semantics -- whatever happened to the originals --, and every live
+   interpreter points at the individual stored in its own object. *)
+Theorem C08_target_is_self : forall (ind : Type) (ops : list (op ind)) (vs : vstate ind),
+  vrun vinit ops = Some vs ->
+  exists st : state ind, run_ops Reseat init ops = Some st /\
+    (forall m, model_program st m = v_get vs m) /\
+    (forall a o, lookup (st_heap st) a = Some o -> o_tgt o = a).
+Proof. exact target_is_self. Qed.
+Print Assumptions C08_target_is_self.
 
 (* ---------------------------------------------------------------- slots *)
 (* slot() never leaves the table: for every program output (any double the
@@ -80,6 +97,86 @@ Theorem C08_evaluator_scores_the_model : forall pl,
 Proof. intro pl. split; [exact (count_eval_is_count_up pl)|exact (n_ok_bad pl)]. Qed.
 Print Assumptions C08_evaluator_scores_the_model.
 
+(* a team with at least one defined member answers (count > 0 holds however
+   long the team is) *)
+Theorem C08_team_defined_gives_value : forall outs,
+  defined outs <> [] -> exists avg, team_eval outs = Some avg.
+Proof. exact team_defined_gives_value. Qed.
+Print Assumptions C08_team_defined_gives_value.
+
+(* exact layer: the recurrence avg += (x - avg) / ++count, without rounding,
+   is the arithmetic mean *)
+Theorem C08_running_mean_exact_is_arithmetic_mean : forall xs, xs <> [] ->
+  rmean_from 0 0 xs = (rsum xs / INR (length xs))%R.
+Proof. exact running_mean_exact_is_arithmetic_mean. Qed.
+Print Assumptions C08_running_mean_exact_is_arithmetic_mean.
+
+(* ------------------------------------------------------------ confidences *)
+(* [le01 c]: 0 <= c and c <= 1 as IEEE comparisons (so c is not NaN) *)
+Theorem C08_dyn_slot_confidence_01 : forall libm_atan classes x_slot train d o lab c,
+  Z.of_nat (length train) <= 2 ^ 64 ->
+  dyn_build libm_atan classes x_slot train = Some d ->
+  dyn_tag libm_atan d o = Some (lab, c) -> le01 c.
+Proof. exact dyn_slot_confidence_01. Qed.
+Print Assumptions C08_dyn_slot_confidence_01.
+
+Theorem C08_gaussian_label_lt_classes : forall libm_exp classes train g o, (0 < classes)%nat ->
+  gauss_build classes train = Some g -> (fst (gauss_tag libm_exp g o) < classes)%nat.
+Proof. exact gauss_build_label. Qed.
+Print Assumptions C08_gaussian_label_lt_classes.
+
+(* FULL statement wanted:  forall classes train g o, gauss_build classes train = Some g ->
+                           le01 (snd (gauss_tag libm_exp g o)).
+   Proved: the same for ANY per-class (mean, variance) table whose variances
+   are NaN (empty class) or >= 0, every query output (NaN, +-inf, undefined
+   included).  Missing: that Welford's m2 stays >= 0 under binary64 rounding
+   for every training set (the harness checks it on every run instead).
+   H_libm: exp(NaN) is NaN; exp(x) in [0,1] for x <= 0. *)
+Theorem C08_gaussian_confidence_01_partial : forall libm_exp : f64 -> f64,
+  (forall x : f64, is_nan x = true -> is_nan (libm_exp x) = true) ->
+  (forall x : f64, F64.leb x F64.zero = true -> le01 (libm_exp x)) ->
+  forall stats o, Forall (fun mv => var_ok (snd mv)) stats ->
+  le01 (snd (gauss_tag_stats libm_exp stats o)).
+Proof. exact gaussian_confidence_01_stats. Qed.
+Print Assumptions C08_gaussian_confidence_01_partial.
+
+Theorem C08_binary_label_01 : forall o, (fst (binary_tag o) < 2)%nat.
+Proof. exact binary_label_01. Qed.
+Print Assumptions C08_binary_label_01.
+
+(* the binary sureness |val| is >= 0 for every program output that is not NaN *)
+Theorem C08_binary_sureness_nonneg : forall o,
+  match o with Some x => is_nan x = false | None => True end ->
+  F64.leb F64.zero (snd (binary_tag o)) = true.
+Proof. exact binary_sureness_nonneg. Qed.
+Print Assumptions C08_binary_sureness_nonneg.
+
+(* winner-takes-all: the answer is a member's answer and no member is surer *)
+Theorem C08_wta_picks_max_sureness : forall tags best,
+  (forall t, In t tags -> is_nan (snd t) = false) ->
+  wta tags = Some best ->
+  In best tags /\ forall t, In t tags -> F64.gtb (snd t) (snd best) = false.
+Proof. exact wta_picks_max_sureness. Qed.
+Print Assumptions C08_wta_picks_max_sureness.
+
+Theorem C08_mv_confidence_01 : forall classes tags lab c, (0 < classes)%nat -> tags <> [] ->
+  Z.of_nat (length tags) <= 2 ^ 64 ->
+  mv classes tags = Some (lab, c) -> (lab < classes)%nat /\ le01 c.
+Proof. exact mv_confidence_01. Qed.
+Print Assumptions C08_mv_confidence_01.
+
+(* --------------------------------------------------------------- accuracy *)
+Theorem C08_accuracy_is_fraction : forall pl, pl <> [] -> Z.of_nat (length pl) <= 2 ^ 64 ->
+  accuracy_class pl = F64.div (F64.of_Z (Z.of_nat (n_ok pl))) (F64.of_Z (Z.of_nat (length pl))) /\
+  (n_ok pl <= length pl)%nat /\ le01 (accuracy_class pl).
+Proof. exact accuracy_is_fraction. Qed.
+Print Assumptions C08_accuracy_is_fraction.
+
+Theorem C08_accuracy_reg_in_01 : forall pl, pl <> [] -> Z.of_nat (length pl) <= 2 ^ 64 ->
+  le01 (accuracy_reg pl).
+Proof. exact accuracy_reg_is_fraction. Qed.
+Print Assumptions C08_accuracy_reg_in_01.
+
 (* ------------------------------------------------------------ non-vacuity *)
 Example C08_ex_slot_class : fix_unknown 2 None [2; 1; 2; 2; 0; 2]%nat = [1; 1; 1; 1; 0; 0]%nat.
 Proof. reflexivity. Qed.
@@ -87,3 +184,24 @@ Example C08_ex_first_unknown_all : fix_unknown 3 None [3; 3; 3]%nat = [0; 0; 0]%
 Proof. reflexivity. Qed.
 Example C08_ex_tie_goes_up : best_class [4; 7; 7; 1] = 2%nat /\ raw_class 4 [0; 0; 0; 0] = 4%nat.
 Proof. split; reflexivity. Qed.
+
+(* a history with copies, self-assignment, moves, vector growth and erasure is valid *)
+Example C08_ex_history :
+  exists vs : vstate nat, vrun vinit [MNew 10; MNew 20; MCopy 0; MAssign 0 1; MAssign 2 2; VPush 0; VPush 2; VPush 3;
+                            MDestroy 0; VErase 0; MMove 1; MDestroy 2]%nat = Some vs /\
+             v_get vs 3 = Some 10%nat /\ v_get vs 4 = Some 20%nat /\ v_get vs 6 = Some 20%nat.
+Proof. eexists. split; [vm_compute; reflexivity|]. repeat split. Qed.
+
+(* the hypotheses about exp are satisfiable, and so is var_ok on a table with an empty class *)
+Example C08_ex_libm : exists e : f64 -> f64,
+  (forall x : f64, is_nan x = true -> is_nan (e x) = true) /\
+  (forall x : f64, F64.leb x F64.zero = true -> le01 (e x)).
+Proof.
+  exists (fun x => if is_nan x then F64.nan else F64.zero). split.
+  - intros x H. rewrite H. reflexivity.
+  - intros x H. destruct (leb_true_nonnan _ _ H) as [N _]. rewrite N. apply le01_zero.
+Qed.
+Example C08_ex_var_ok : Forall (fun mv : f64 * f64 => var_ok (snd mv)) [(F64.zero, L.one); (F64.zero, F64.nan)].
+Proof. constructor; [right; reflexivity|]. constructor; [left; reflexivity|constructor]. Qed.
+Example C08_ex_dyn_build : exists d, dyn_build (fun _ => F64.zero) 2 2 [(Some L.one, 1%nat); (None, 0%nat)] = Some d.
+Proof. eexists. vm_compute. reflexivity. Qed.
